@@ -94,7 +94,7 @@ TRANSLATED = {
  'C08': 'KillerTable::get/put, the MvvLva sort key, Heuristic::is_checkmate and the terminal branches of evaluate (rs_killer_get_eq, rs_killer_put_eq, rs_sort_key_eq, rs_is_checkmate_eq, rs_evaluate_eq)',
  'C10': 'ZobristHistory::count_repetitions and Bitboard::ply_clock (rs_count_repetitions_eq, rs_ply_clock_eq)',
  'C11': 'Heuristic::score_from_value, is_checkmate and the terminal branches of evaluate (rs_score_from_value_eq, rs_is_checkmate_eq, rs_evaluate_eq)',
- 'C12': 'Fen::validate_rank (rs_validate_rank_eq)',
+ 'C12': 'Fen::from_str (everything but the regex match, which is an opaque oracle assumed to behave like the hand-translated FenSyntax.regexGroups: hypothesis RegexModel), validate_ranks/validate_rank, the clock checks, the whole reader FenParseExt / Bitboard::from(&Fen) with square_shift_from_fen_unchecked (rs_fen_from_str_eq, rs_fen_decode_eq, rs_fen_read_eq, rs_fen_roundtrip_read: the text printFen writes is read back by the TRANSLATED reader to the same position); of the writer the piece lookup (rs_get_colored_piece_eq), the run-length loop is translated, its equivalence proof is a stated TARGET',
  'C15': 'Square::from_chars / from_indices (rs_from_chars_eq)',
 }
 
